@@ -516,6 +516,17 @@ void verif_case(Rng & rng, long idx, const std::string &) {
         std::printf("#stat mutant_%s 1\n", m.cls.c_str());
         // unknown-name mutants on a `*`-free position only make sense when the replaced token was an index
         runText(f.pomdp, text, REJ(m.cls));
+    } else if (stream == 12) {                         // garbage: no structure at all, long lines, arbitrary bytes (memory clause)
+        std::string text;
+        static const std::string al = "TOR:* \n\t0123456789.-+eabcstdisvluonx#";
+        int mode = (int)rng.below(4);
+        size_t len = rng.below(mode == 3 ? 6000 : 160);
+        if (mode == 0) { File f = genFile(rng, true, false); Renderer R{rng, f, Mut{}, true}; text = R.render();
+                         for (int k = 0; k < 3 && !text.empty(); ++k) text.insert(rng.below(text.size() + 1), 1, (char)rng.below(256)); }
+        else for (size_t i = 0; i < len; ++i) text.push_back(mode == 1 ? (char)rng.below(256) : al[rng.below(al.size())]);
+        if (mode == 3) { std::string head = rng.coin() ? "states: 2\nactions: 2\nT: 0 : 0 " : "states: 2\nactions: 1\nT: 0\n"; text = head + text; }
+        std::puts("#stat garbage 1");
+        runText(rng.coin(), text, ANY);
     } else {                                           // generic mutation stream, no expectation beyond agreement and validity
         File f = genFile(rng, rng.coin(3, 4), ugly);
         Renderer R{rng, f, Mut{}, rng.coin(1, 4)};
